@@ -87,6 +87,14 @@ def step (ws : List String) : String :=
         else "bad-op"
       | _, _, _ => "bad-op"
     | _, _ => "bad-op"
+  | ["hr.bulk", nS] =>
+    -- one caller; its update pass loads `n` never-cached assets: `send` never blocks in the model
+    match nS.toNat? with
+    | some n =>
+      if n == 0 || n > 5000 then "bad-op" else
+      let env : Env := ⟨genCfg.waitNotifies, genCfg.catchesPanic, fun _ => .ok⟩
+      if allDone (run env (init 1) (sequentialSchedule 1)) 1 then s!"returned {n}" else "blocked"
+    | none => "bad-op"
   | ["hr.conc", tS, _calls, _loaders, _events, outcome] =>
     match tS.toNat?, _calls.toNat?, _loaders.toNat?, _events.toNat? with
     | some t, some _, some _, some _ => if t == 0 || t > 64 then "bad-op" else conc t outcome
@@ -94,16 +102,16 @@ def step (ws : List String) : String :=
   | ["idle.run", kind, when_, kS, mS, eS] =>
     match kS.toNat?, mS.toNat?, eS.toNat? with
     | some k, some m, some ev =>
-      if !(["mem-keep", "mem-nosender", "fs"].contains kind) || !(["idle", "after-reload", "queued-events", "after-loads"].contains when_) || k == 0 || k > 16 then "bad-op" else
-      let evConn := kind != "mem-nosender"
-      let before := verdict genCfg.leavesOnDisconnect ⟨0, 0, true, evConn⟩
-      let after := if before == .exited then .exited else verdict genCfg.leavesOnDisconnect ⟨m, ev, false, evConn⟩
+      if !(["mem-keep", "mem-nosender", "mem-neversender", "mem-latedrop", "fs"].contains kind) || !(["idle", "after-reload", "queued-events", "after-loads"].contains when_) || k == 0 || k > 16 then "bad-op" else
+      let evConn := kind == "mem-keep" || kind == "fs"
+      let before := verdict genCfg.loop ⟨0, 0, true, evConn⟩
+      let after := if before == .exited then .exited else verdict genCfg.loop ⟨m, ev, false, evConn⟩
       s!"before={showVerdict before} after={showVerdict after} left={if after == .exited then 0 else k}"
     | _, _, _ => "bad-op"
   | ["idle.prim", mS, eS, mcS, ecS] =>
     match mS.toNat?, eS.toNat?, parseBool? mcS, parseBool? ecS with
     | some m, some ev, some mc, some ec =>
-      match iter genCfg.leavesOnDisconnect false ⟨m, ev, mc, ec⟩ with
+      match iter genCfg.loop false ⟨m, ev, mc, ec⟩ with
       | .blocked => "blocked"
       | _ => "ready"
     | _, _, _, _ => "bad-op"
